@@ -62,3 +62,5 @@ SPEC = {'id': 'C01',
                  'carriers deliver bytes in order and unmodified while alive',
                  'some working carrier eventually becomes available'],
  'race': True}
+
+SPEC['thorough_passes'] = 4  # the thorough tier runs the whole harness under this many consecutive seeds
